@@ -1811,15 +1811,50 @@ class Interp:
         return False
 
     def subsumes(self, A, B):
+        """Does state A cover state B?  Rigid symbols of A are bound consistently to values of B; entries of A keyed by an
+        index symbol are compared with B's entry at the bound index (or with what B knows about that location)."""
         if A.comps != B.comps:
             return False
         binding = {}
-        for k, va in A.mem.items():
+        plain = [(k, v) for k, v in A.mem.items() if not has_abs(k[1])]
+        keyed = [(k, v) for k, v in A.mem.items() if has_abs(k[1])]
+        for k, va in plain:
             vb = B.mem.get(k)
             if vb is None:
                 if va[0] == 'top':
                     continue
                 return False
+            if not self.val_subsumes(va, vb, A, B, binding):
+                return False
+        for k, va in keyed:
+            path = []
+            for x in k[1]:
+                if isinstance(x, tuple) and x and x[0] == 'l' and x[1] == 0 and len(x[2]) == 1 and x[2][0][1] == 1 and x[2][0][0] in binding:
+                    b = binding[x[2][0][0]]
+                    if isinstance(b, tuple) and b and b[0] == 'c':
+                        path.append(b[1])
+                    elif isinstance(b, tuple) and b and b[0] == 'nonrigid':
+                        path.append(x)
+                    else:
+                        path.append(b)
+                else:
+                    path.append(x)
+            kb = (k[0], tuple(path))
+            vb = B.mem.get(kb)
+            if vb is None:
+                if va[0] == 'top':
+                    continue
+                vb = self.load(B, kb)
+                if vb == TOP:
+                    e = None
+                    if va[0] == 's':
+                        # a small set that is the whole enumeration covers "unknown"
+                        for en in self.prog.enums.values():
+                            if set(en['consts'].values()) == set(va[1]):
+                                e = en
+                    if e is not None:
+                        continue
+                    return False
             if not self.val_subsumes(va, vb, A, B, binding):
                 return False
         return True
